@@ -25,7 +25,7 @@ class C03(Prop):
     modelled = "convex.py: all_combinations_of_bounds, get_P_from_A (corner order), in_hull_from_A data flow via transform_values; estimator.in_hull (relative/absolute/normalized dispatch). Opaque: Delaunay.find_simplex, convex_combination NNLS"
 
     def sizes(self, tier):
-        return 260 if tier == "quick" else 5000
+        return 400 if tier == "quick" else 6000
 
     def gen(self, rng, n, tier):
         cases = []
@@ -37,13 +37,23 @@ class C03(Prop):
             relative = rng.random() < 0.75
             m, nn = sys["m"], sys["n"]
             lb = sys["lb"]; ubf = np.where(np.isfinite(sys["ub"]), sys["ub"], lb + 8.0)
-            tk = rng.choice(["interior", "interior", "nearin", "outside", "outside", "nearout", "nearout", "face", "vertex", "near", "far"])
+            tk = rng.choice(["interior", "interior", "nearin", "outside", "outside", "nearout", "nearout", "beyond", "beyond", "face", "vertex", "near", "far"])
+            via_adapt = None
+            if relative and not norm and sys["Kkind"] in ("none", "vector") and rng.random() < 0.35:
+                # the adaptation is reached through register_system_adaptation AFTER a first gamut query
+                x0 = np.array([sys["lb"][i] + (np.where(np.isfinite(sys["ub"]), sys["ub"], sys["lb"] + 8.0)[i] - sys["lb"][i]) * rng.randint(4, 12) / 16 for i in range(sys["n"])])
+                est0 = gs.make_estimator(dict(sys, K=None))
+                est0.register_system_adaptation(x0)
+                sys = dict(sys, K=np.array(est0.K, dtype=float), Kkind="vector")
+                via_adapt = x0.tolist()
             x = None
             if tk == "interior":
                 x = np.array([lb[i] + (ubf[i] - lb[i]) * rng.randint(2, 14) / 16 for i in range(nn)])
             elif tk == "nearin":
                 # strictly inside, but only 1/128 of the range away from one or more faces
                 x = np.array([lb[i] + (ubf[i] - lb[i]) * rng.choice([1, 1, 127, 127, 64, 32, 96]) / 128 for i in range(nn)])
+            elif tk == "beyond":
+                x = ubf.copy()
             elif tk in ("face", "nearout") and rng.random() < 0.5:
                 x = np.array([rng.choice([lb[i], ubf[i]]) for i in range(nn)])
             elif tk == "face":
@@ -61,6 +71,11 @@ class C03(Prop):
                 b = b + np.array([rng.randint(-32, 32) / 8 for _ in range(m)])
             elif tk == "far":
                 b = b + np.array([rng.randint(-80, 80) / 2 for _ in range(m)])
+            elif tk == "beyond":
+                # just beyond the all-upper-bound vertex, along a non-negative combination of the source directions
+                Apx = gs.K_apply(sysr["K"], sysr["A"], np.zeros(m))[0]
+                w = np.array([rng.randint(0, 8) / 8 for _ in range(nn)]); w[rng.randrange(nn)] += 0.5
+                b = b + (Apx @ (w * np.maximum(lb, 0.25))) * rng.choice([0.25, 0.5, 0.9])
             elif tk == "near":
                 b = b + np.array([rng.randint(-4, 4) / 1024 for _ in range(m)])
             elif tk == "nearout":
@@ -69,7 +84,7 @@ class C03(Prop):
             if norm and (np.any(b <= 0)):
                 continue
             cases.append({"sys": {k: (v.tolist() if isinstance(v, np.ndarray) else v) for k, v in sys.items()},
-                          "relative": relative, "norm": norm, "b": b.tolist(), "x": x.tolist(), "tk": tk,
+                          "relative": relative, "norm": norm, "b": b.tolist(), "x": x.tolist(), "tk": tk, "via_adapt": via_adapt,
                           "kind": "%s/%s/%s/ub-%s/%s" % (tk, "norm" if norm else "plain", "rel" if relative else "abs",
                                                          "fin" if fin else "inf", "flat" if nn < m else "full")})
         return cases
@@ -77,9 +92,15 @@ class C03(Prop):
     def run_impl(self, case):
         from p_C04 import C04
         sys = C04.sysnp(case)
-        est = gs.make_estimator(sys)
-        core.drain_hooks()
         B = np.asarray(case["b"], dtype=float)[None]
+        if case.get("via_adapt") is not None:
+            est = gs.make_estimator(dict(sys, K=None))
+            est.in_hull(B, relative=case["relative"], normalized=case["norm"])      # a first query, before adapting
+            est.register_system_adaptation(np.asarray(case["via_adapt"], dtype=float))
+            assert np.array_equal(est.K, sys["K"]), "adaptation K differs from the recorded one"
+        else:
+            est = gs.make_estimator(sys)
+        core.drain_hooks()
         r = est.in_hull(B, relative=case["relative"], normalized=case["norm"])
         paths = [h[1]["path"] for h in core.drain_hooks() if h[0] == "inhull.path"]
         return {"answer": bool(np.asarray(r).ravel()[0]), "paths": paths}
